@@ -830,3 +830,21 @@ cache_set_attrs(struct cache *cache, kdump_ctx_t *ctx,
 
 	return KDUMP_OK;
 }
+
+#ifdef LIBKDUMPFILE_VERIF
+/** Verification hook: sum of the reference counts of all cache entries.
+ * @param cache  Cache object.
+ * @returns      Sum of @c refcnt over all entries (cached, ghost, in-flight
+ *               and unused).
+ */
+unsigned long
+verif_cache_refsum(struct cache *cache)
+{
+	unsigned long sum = 0;
+	unsigned i;
+
+	for (i = 0; i < 2 * cache->cap; ++i)
+		sum += cache->ce[i].refcnt;
+	return sum;
+}
+#endif
